@@ -307,8 +307,10 @@ PROPS = {
              'comparable but never acceptable as a cache key (unexported interface field), static (a literal) or per invocation (an invoke argument): which class they get and how often they are called',
         level_text='Theorem memo_once_per_key (interleaving semantics of the cacher — mutex held across lookup, call, store: for every key assignment, any number '
                    'of concurrent uses and every schedule the function is called at most once per key and every use that returned observed that call\'s result), '
-                   'with its invariant Minv; Coq, no axioms. Key injectivity and call-through for unhashable inputs are covered by the stream only '
-                   '(defects D2, D12, D13 repaired in /repo).',
+                   'with its invariant Minv; C09_cacher_never_deadlocks (in every reachable state every use has returned or some use can step); '
+                   'C09_unkeyable_inputs_call_each_time (direct-call model for inputs that cannot be map keys: each use calls the function itself exactly once and '
+                   'observes its own result, nothing fails or waits; mode 4 of the memo stream is compared with a run of it); Coq, no axioms. Key injectivity '
+                   'and the decision which values can be keys are covered by the stream only (defects D2, D12, D13 repaired in /repo).',
         level_note=CONC_NOTE, design_ref='DESIGN.md section 8 (C09)',
         assumptions=['Go map keys built from [n]any compare by value equality'],
     ),
@@ -321,6 +323,7 @@ PROPS = {
              'provider, same id - are bound into two collections each, in a seed-chosen order: the Singleton copies run once whatever their input, the Memoize '
              'copies once per input; plus the static stream (sequential sessions with repeated init calls)',
         level_text='Theorems once_exactly_once (any number of racing callers, every schedule: at most one call, every caller that returned observed its result), '
+                   'C10_once_never_deadlocks (in every reachable state every caller has returned or some caller can step), '
                    'static_not_rerun, init_idempotent, first_run_sets_done (the static chain runs in the first init / first invoke only; later init arguments '
                    'are ignored); Coq, no axioms.',
         level_note=CONC_NOTE, design_ref='DESIGN.md section 8 (C10)',
